@@ -17,7 +17,7 @@ COMMON_ASSUMPTIONS = [
 
 # output fields whose corruption the negative control tries, per event kind
 CORRUPTIBLE = {"sign": ["sig", "stored_key", "mem_after"], "keygen": ["pk", "sk"], "lifetime": ["val"],
-               "hook": ["digits", "life", "succ", "seed"], "verify": []}
+               "hook": ["digits", "life", "succ", "seed", "child_seed", "randomizer"], "verify": []}
 
 MSG_LENS = [0, 1, 15, 16, 23, 24, 31, 32, 55, 56, 64, 300]
 
@@ -112,6 +112,16 @@ def c08_phases(ctx):
             blob = bytes(8) + pb + det_bytes("c08tall/%s/%d" % (alg, li), n)
             cmds.append({"op": "hook", "hook": "root", "alg": alg, "key": blob.hex()})
         groups.append({"name": "c08/%s/tall" % alg, "cmds": cmds, "cost": 0.1})
+        # seed derivation below a tree for leaf numbers up to 2^25-1 (trees of height 10..25 are never built):
+        # child seed / identifier, randomizer, chain start values - through the accessor
+        cmds = []
+        qs = [0, 1, 2, 31, 32, 255, 256, 257, 511, 1023, 1024, 65535, 65536, 65537, (1 << 20) - 1, 1 << 20, (1 << 24) - 1, 1 << 24,
+              (1 << 24) + 1, (1 << 25) - 1, 0x00ff00ff, 0x01000000, 0x01fffffe]
+        qs += [det_int("c08/q/%s/%d" % (alg, i), 1 << 25) for i in range(4 if quick else 40)]
+        for qi, q in enumerate(qs):
+            cmds.append({"op": "hook", "hook": "derive", "alg": alg, "seed": det_bytes("c08/ds/%s/%d" % (alg, qi % 3), N_OF[alg]).hex(),
+                         "I": det_bytes("c08/dI/%s/%d" % (alg, qi % 5), 16).hex(), "q": "%08x" % q, "type": 1 + qi % 4})
+        groups.append({"name": "c08/%s/derive" % alg, "cmds": cmds, "cost": 0.3})
     return [{"tag": "c08", "groups": groups, "space": "seeds x parameter lists (1..8 levels) x 6 hashes"}]
 
 
@@ -147,7 +157,9 @@ def c01_phases(ctx):
             groups.append(walk_group("c01/%s/5lvl" % alg, alg, [(w0, 2), (w1, 2), (w2, 2), (4, 2), (2, 2)],
                                      [0, 255, 256, 1023], [64]))
     # shapes whose trees TLC does not rebuild: verify-level judging ("light")
-    tall = [("sha256_n32", [(4, 10)], [0, 1, 512, 1023]), ("shake256_n16", [(8, 5), (2, 10)], [1023, 1024, 32767])]
+    tall = [("sha256_n32", [(4, 10)], [0, 1, 512, 1023]), ("shake256_n16", [(8, 5), (2, 10)], [1023, 1024, 32767]),
+            # a parent leaf number >= 256 (child seed derivation with a two-byte leaf number)
+            ("sha256_n24", [(4, 10), (4, 2)], [1023, 1024, 2047, 4095])]
     if not quick:
         tall += [("sha256_n24", [(2, 10), (4, 5)], [31, 32, 32767]), ("shake256_n32", [(4, 10), (4, 10)], [1023, 1024])]
     for alg, params, ctrs in tall:
@@ -820,6 +832,8 @@ def c13_phases(ctx):
         if not quick:
             groups.append(walk_group("c13/e2e/%s/5-10" % alg, alg, [(8, 5), (4, 10)], [1023, 1024, 1025, 32767], [3], light=True))
             groups.append(walk_group("c13/e2e/%s/10-2" % alg, alg, [(8, 10), (4, 2)], [3, 4, 4095], [3], light=True))
+        elif ai == 0:
+            groups.append(walk_group("c13/e2e/%s/10-2" % alg, alg, [(4, 10), (4, 2)], [3, 4, 1024, 4095], [3], light=True))
     return [{"tag": "c13", "groups": groups,
              "space": "height tuples (all short ones + VERIF_SEED-sampled longer ones + tall lists) x boundary counters from MC_Arith!BoundaryCtrs + random; "
                       "end to end through the leaf-index fields of signatures for mixed-height shapes"}]
@@ -939,15 +953,19 @@ def c10_phases(ctx):
 
 # ---- multi-step histories of ONE buffer: behaviours of the HssAux protocol model (TLC simulation) ----
 def gen_aux_walks(ctx, num):
+    """free walks (TLC simulation, VERIF_SEED) and the scripted histories (exhaustive)"""
     rc, out, st = run_tlc("GenAuxWalks", "GenAuxWalks.cfg", os.path.join(ctx["workdir"], "meta-auxwalks"), workers=1, xmx="4g", timeout=900,
                           extra=["-simulate", "num=%d" % num, "-depth", "60", "-seed", str(seed_int() + 29)])
-    walks = tlc_printed(out, "WALK")
     uniq = {}
-    for w in walks:
-        uniq.setdefault(json.dumps(w[:-1]), w)      # TLC prints one line per successor of the last step
+    for w in tlc_printed(out, "WALK"):
+        uniq.setdefault(json.dumps(w["steps"][:-1]), w["steps"])      # TLC prints one line per successor of the last step
     if not uniq:
         raise ToolError("GenAuxWalks produced no walk: " + out[-1500:])
-    return list(uniq.values())[:num], st
+    rc, out2, st2 = run_tlc("GenAuxWalks", "GenAuxWalks_scripts.cfg", os.path.join(ctx["workdir"], "meta-auxscripts"), workers=4, xmx="4g", timeout=900)
+    scripted = [w for w in tlc_printed(out2, "WALK")]
+    if "Error:" in out2 or not scripted:
+        raise ToolError("GenAuxWalks_scripts failed: " + out2[-1500:])
+    return list(uniq.values())[:num], scripted, st, st2
 
 
 def aux_real_len(c, n):
@@ -964,12 +982,15 @@ def aux_word_hex(levels):
     return "%08x" % (0x80000000 | v) if levels else "80000000"
 
 
-def concretise_aux_walk(name, walk, alg, params, wi):
+def concretise_aux_walk(name, walk, alg, params, wi, mem_a=False):
+    """mem_a: key "a" is ONE in-memory SigningKey object for the whole history (try_sign_with_aux)"""
     n = N_OF[alg]
     keys = {"a": seed_hex(name + "/a", alg), "b": seed_hex(name + "/b", alg)}
     total = lifetime_of(params)
     cmds = [cmd_keygen(alg, params, keys[k], out={"sk": "sk_" + k, "pk": "pk_" + k}) for k in ("a", "b")]
     cmds.append({"op": "set", "slot": "aux", "value": ""})
+    if mem_a:
+        cmds.append({"op": "load", "alg": alg, "mem": "mem_a", "key": key_at("sk_a", det_int(name + "/start", max(1, total - 16)))})
     A = slot("aux")
     nsig = 0
     for i, a in enumerate(walk):
@@ -985,8 +1006,12 @@ def concretise_aux_walk(name, walk, alg, params, wi):
         elif kind == "sign":
             ctr = det_int("%s/ctr/%d" % (name, i), total)
             m = msg_hex("%s/m/%d" % (name, i), 12)
-            cmds.append(cmd_sign(alg, key_at("sk_" + a["k"], ctr), m, aux=A if a["aux"] else None,
-                                 out={"sig": "sig", "aux": "aux"} if a["aux"] else {"sig": "sig"}, meta={"class": "aux_walk", "step": i}))
+            if mem_a and a["k"] == "a":
+                cmds.append(cmd_sign(alg, None, m, api="mem_aux", mem="mem_a", aux=A if a["aux"] else None,
+                                     out={"sig": "sig", "aux": "aux"} if a["aux"] else {"sig": "sig"}, meta={"class": "aux_walk", "step": i}))
+            else:
+                cmds.append(cmd_sign(alg, key_at("sk_" + a["k"], ctr), m, aux=A if a["aux"] else None,
+                                     out={"sig": "sig", "aux": "aux"} if a["aux"] else {"sig": "sig"}, meta={"class": "aux_walk", "step": i}))
             cmds.append(cmd_verify(alg, m, slot("sig"), slot("pk_" + a["k"])))
             nsig += 1
         elif kind == "new_zero":
@@ -1021,17 +1046,25 @@ def concretise_aux_walk(name, walk, alg, params, wi):
 
 def c10_walk_groups(ctx):
     quick = ctx["tier"] == "quick"
-    walks, st = gen_aux_walks(ctx, 36 if quick else 240)
+    walks, scripted, st, st2 = gen_aux_walks(ctx, 24 if quick else 240)
     groups = []
     labels = set()
     for wi, w in enumerate(walks):
         alg = ALGS[wi % 6]
         w0 = [4, 2, 4, 8, 4, 1][wi % 6] if not quick else [4, 2, 4, 4, 4, 2][wi % 6]
         params = [(w0, 5)] if wi % 3 else [(w0, 5), (4, 2)]
-        groups.append(concretise_aux_walk("c10/walk/%d" % wi, w, alg, params, wi))
+        groups.append(concretise_aux_walk("c10/walk/%d" % wi, w, alg, params, wi, mem_a=(wi % 2 == 1)))
         for a in w:
             labels.add((a["a"], a.get("aux"), bool(a.get("marker")), len(a.get("word", []))))
-    ctx["aux_walk_stats"] = {"walks": len(walks), "sim_states": st["states"], "distinct_step_labels": len(labels)}
+    for si, w in enumerate(scripted):
+        for mem_a in (False, True):
+            if quick and (si + mem_a) % 2 and w["sid"] not in (1, 2, 3):
+                continue
+            alg = ALGS[(si + 3 * mem_a) % 6]
+            params = [(4, 5)] if (si + mem_a) % 2 else [(4, 5), (2, 2)]
+            groups.append(concretise_aux_walk("c10/script/%d/%d/%s" % (w["sid"], si, "mem" if mem_a else "bytes"), w["steps"], alg, params, si, mem_a=mem_a))
+    ctx["aux_walk_stats"] = {"free_walks": len(walks), "sim_states": st["states"], "distinct_step_labels": len(labels),
+                             "scripted_behaviours": len(scripted), "scripted_states": st2["distinct"]}
     return groups
 
 
@@ -1329,9 +1362,26 @@ def c09_parallel_groups(ctx):
     return groups
 
 
+def c09_aux_history_groups(ctx):
+    """a key that STAYS in memory (one SigningKey object) against the byte-level function while the caller's aux buffer
+    changes owner / is tampered with between the calls: scripted behaviours of HssAux.tla"""
+    rc, out, st = run_tlc("GenAuxWalks", "GenAuxWalks_scripts.cfg", os.path.join(ctx["workdir"], "meta-auxscripts9"), workers=4, xmx="4g", timeout=900)
+    scripted = tlc_printed(out, "WALK")
+    if "Error:" in out or not scripted:
+        raise ToolError("GenAuxWalks_scripts failed: " + out[-1500:])
+    groups = []
+    for si, w in enumerate(scripted):
+        if w["sid"] not in (1, 2, 3, 4):
+            continue
+        alg = ALGS[si % 6]
+        groups.append(concretise_aux_walk("c09/auxhist/%d/%d" % (w["sid"], si), w["steps"], alg, [(4, 5)] if si % 2 else [(2, 5), (4, 2)], si, mem_a=True))
+    return groups
+
+
 def c09_phases(ctx):
     ph = api_phases(ctx, "c09")
     ph[0]["groups"] += c09_parallel_groups(ctx)
+    ph[0]["groups"] += c09_aux_history_groups(ctx)
     ph[0]["space"] += "; the same keygen/sign/verify/lifetime calls from the main thread, 4-16 concurrent threads and a fresh child process"
     return ph
 
